@@ -1,0 +1,16 @@
+//go:build verif
+
+package kzg
+
+import "github.com/consensys/gnark/frontend"
+
+// VerifTraceHook (build tag verif only) lets a harness observe the Fiat-Shamir folding coefficients the
+// in-circuit KZG verifier derives: "fold-multi-lambda" (FoldProofsMultiPoint) and "fold-single-gamma"
+// (FoldProof), as the limbs of the emulated scalar.
+var VerifTraceHook func(event string, limbs []frontend.Variable)
+
+func verifTrace(event string, limbs []frontend.Variable) {
+	if VerifTraceHook != nil {
+		VerifTraceHook(event, limbs)
+	}
+}
